@@ -60,7 +60,7 @@ thispathname = os.path.dirname(__file__)
 sys.path.append(os.path.join(thispathname))
 
 # Import necessary libraries
-from lib._compat import _str, _range, _StringIO, b # to support intra-ecc
+from lib._compat import _str, _range, _StringIO, b, _open_csv # to support intra-ecc
 from lib.aux_funcs import get_next_entry, is_dir, is_dir_or_file, fullpath, recwalk, sizeof_fmt, path2unix, get_version
 import argparse
 import datetime, time
@@ -614,7 +614,7 @@ Note2: that Reed-Solomon can correct up to 2*resilience_rate erasures (eg, null 
         # Prepare the list of files with errors to reduce the scan (only if provided)
         errors_filelist = []
         if errors_file:
-            with open(errors_file, 'rb') as efile:
+            with _open_csv(errors_file, 'r') as efile:
                 for row in csv.DictReader(efile, lineterminator='\n', delimiter='|', quotechar='"', fieldnames=['filepath', 'error']): # need to specify the fieldnames, else the first row in the csv file will be skipped (it will be used as the columns names)
                     errors_filelist.append(row['filepath'])
 
